@@ -1,5 +1,6 @@
 import Mitx.Driver.Attempt
 import Mitx.Model.Tol
+import Mitx.Model.FormulaPipe
 namespace Drv
 open Lean Proto Tl
 
@@ -42,5 +43,31 @@ def formulaGradeOp (j : Json) : Except String Json := do
   match formulaGrade samples tol ans fe with
   | some r => pure (Json.mkObj [("out", resToJson r)])
   | none => pure (Json.mkObj [("err", Json.str "shape")])
+
+end Drv
+
+namespace Drv
+open Lean Proto Tl
+
+def envPairs (j : Json) : Except String (List (String × Rat)) :=
+  getList (fun e => do
+    match (← getArr e) with
+    | [a, b] => do pure ((← getStr a), (← getRat b))
+    | _ => .error "pair expected") j
+
+/-- op `formula_pipeline`: the whole FormulaGrader default-comparer pipeline on strings and scripted samples -/
+def formulaPipelineOp (j : Json) : Except String Json := do
+  let answer ← getStr (← field j "answer")
+  let student ← getStr (← field j "student")
+  let hidden ← getList getStr (fieldD j "hidden" (Json.arr #[]))
+  let sufs ← envPairs (fieldD j "sufs" (Json.arr #[]))
+  let samples ← getList (fun e => do pure ({ vars := ← envPairs e, sufs := sufs } : EvQ.Env)) (← field j "samples")
+  let tol ← tolOfJson (← field j "tol")
+  let ans ← resOfJson (← field j "ans")
+  let fe ← getNat (← field j "failable")
+  match FP.pipeline answer student hidden samples tol ans fe with
+  | .ok (some r) => pure (Json.mkObj [("out", resToJson r)])
+  | .ok none => pure (Json.mkObj [("err", Json.str "shape")])
+  | .error k => pure (Json.mkObj [("err", Json.str k)])
 
 end Drv
